@@ -206,6 +206,23 @@ def build_shared_features_map(mod: fx.GraphModule,
             for i in n.all_input_nodes:
                 i.meta['output_connected'] = True
 
+    # the operands of a concatenation over the features axis that reaches a network output (or
+    # another fixed-width point) without any features-defining layer in between must keep their
+    # width too
+    components = list(nx.weakly_connected_components(sharing_graph))
+    updated = True
+    while updated:
+        updated = False
+        for c in components:
+            if any(n in get_graph_outputs(mod.graph) or n.meta.get('output_connected', False)
+                   for n in c):
+                for n in c:
+                    if n.meta['features_concatenate']:
+                        for i in n.all_input_nodes:
+                            if not i.meta.get('output_connected', False):
+                                i.meta['output_connected'] = True
+                                updated = True
+
     # each weakly connected component of the sharing graph must share the same features masker
     sm_dict = {}
     for c in nx.weakly_connected_components(sharing_graph):
